@@ -300,7 +300,24 @@ class SegmentTensor(PolytopeTensor):
                     return cast(SegmentTensor, a).intersect(cast(SegmentTensor, b))
 
             result = meet(self._line, other._line, _check_dependence=False)
-            ind = ~result.is_zero() & self.contains(result) & other.contains(result)
+            collinear = result.is_zero()
+            ind = ~collinear & self.contains(result) & other.contains(result)
+
+            if np.any(collinear):
+                # two segments of one line have a single point in common when they touch in an end point only
+                touching = np.zeros(np.shape(ind), dtype=bool)
+                conflict = np.zeros(np.shape(ind), dtype=bool)
+                common = np.zeros(np.shape(ind) + result.shape[-1:], dtype=np.result_type(self.dtype, other.dtype, float))
+                for vertex, segment in [(v, other) for v in self.vertices] + [(v, self) for v in other.vertices]:
+                    contained = np.broadcast_to(segment.contains(vertex), touching.shape)
+                    arr = np.broadcast_to(vertex.normalized_array, common.shape)
+                    conflict |= touching & contained & ~is_multiple(arr, common, axis=-1, rtol=EQ_TOL_REL, atol=EQ_TOL_ABS)
+                    common = np.where((contained & ~touching)[..., None], arr, common)
+                    touching |= contained
+                touching &= collinear & ~conflict
+                if np.any(touching):
+                    result = type(result)(np.where(touching[..., None], common, result.array), copy=False)
+                    ind = ind | touching
         else:
             result = meet(self._line, other, _check_dependence=False)
             ind = ~result.is_zero() & self.contains(result)
